@@ -10,8 +10,8 @@
 (***************************************************************************)
 EXTENDS Naturals, Sequences, FiniteSets, TLC, Json
 
-Elems == {"fa", "fb", "CA", "CB"}
-Perms == { p \in [1..4 -> Elems] : \A i, j \in 1..4 : i # j => p[i] # p[j] }
+Elems == {"fa", "fb", "CA", "CB", "CC"}        \* CC: undocumented class with an attribute named like CA's
+Perms == { p \in [1..5 -> Elems] : \A i, j \in 1..5 : i # j => p[i] # p[j] }
 Styles == {"PLAINTEXT", "GOOGLE", "NUMPYDOC", "REST"}
 
 (* documented items of an element: <<owner declaration, item, tag, tag name>> *)
@@ -23,22 +23,23 @@ Items(e) ==
     [] e = "fb" -> FunItems("fb", FALSE)
     [] e = "CA" -> { <<"CA", "desc", "desc", "">>, <<"CA", "p_x", "param", "x">>, <<"CA.at", "at", "desc", "">> } \cup FunItems("CA.meth", FALSE)
     [] e = "CB" -> { <<"CB", "desc", "desc", "">> } \cup FunItems("CB.meth", FALSE)
+    [] e = "CC" -> {}
 AllItems == UNION { Items(e) : e \in Elems }
 
 VARIABLES order, i, comments
 vars == <<order, i, comments>>
 Init == order \in Perms /\ i = 1 /\ comments = {}
 Attach ==
-  /\ i <= 4
+  /\ i <= 5
   /\ comments' = comments \cup { <<it[1], it>> : it \in Items(order[i]) }     \* each item goes to the comment of its own declaration
   /\ i' = i + 1 /\ UNCHANGED order
 Next == Attach
 Spec == Init /\ [][Next]_vars /\ WF_vars(Next)
 Inv_C13_Attach == \A c \in comments : c[1] = c[2][1]
-Inv_C13_Complete == i = 5 => { c[2] : c \in comments } = AllItems
-Inv_C13_OrderFree == i = 5 => comments = { <<it[1], it>> : it \in AllItems }
-Live_Done == <>(i = 5)
-Emit == i = 5 => PrintT(ToJson(order))
+Inv_C13_Complete == i = 6 => { c[2] : c \in comments } = AllItems
+Inv_C13_OrderFree == i = 6 => comments = { <<it[1], it>> : it \in AllItems }
+Live_Done == <>(i = 6)
+Emit == i = 6 => PrintT(ToJson(order))
 
 (***************************************************************************)
 (* Judging one module of a real run.                                       *)
